@@ -2,6 +2,7 @@
 its inputs/outputs canonically.  Imported only inside worker processes."""
 import copy
 import io
+import json
 import logging
 import os
 import signal
@@ -155,20 +156,56 @@ def load_desc(desc):
 
 
 # ---------------------------------------------------------------- icase / bag / regq
-def run_icase(a, b):
+_XPROC = {}
+XPROC_POOL = ["ALU", "alu", "Mem", "MEM", "fetch", "Fetch", "R1", "r1", "", "a b", "\u00c9cole", "\u00e9COLE", "x" * 40, "X" * 40]
+
+
+def xproc_objects():
+    """ICaseStrings of XPROC_POOL pickled by ANOTHER interpreter process started with a different hash seed
+    (objects that arrive from outside keep whatever state that process put into them).  One sub-process per
+    worker; None when the class cannot be pickled there (then the history is simply not exercised)."""
+    if "objs" not in _XPROC:
+        import base64, pickle, subprocess
+        seed = "4242" if os.environ.get("PYTHONHASHSEED") != "4242" else "1717"
+        code = ("import sys,json,pickle,base64\nfrom str_utils import ICaseString\n"
+                "print(base64.b64encode(pickle.dumps([ICaseString(s) for s in json.load(sys.stdin)])).decode())")
+        try:
+            r = subprocess.run([sys.executable, "-c", code], input=json.dumps(XPROC_POOL), capture_output=True, text=True,
+                               timeout=60, env=dict(os.environ, PYTHONHASHSEED=seed,
+                                                    PYTHONPATH=os.pathsep.join(p for p in sys.path if p)))
+            _XPROC["objs"] = dict(zip(XPROC_POOL, pickle.loads(base64.b64decode(r.stdout.strip()))))
+        except Exception:  # noqa: BLE001
+            _XPROC["objs"] = None
+    return _XPROC["objs"]
+
+
+def run_icase(a, b, via="direct"):
     su = M("str_utils")
     A, B = su.ICaseString(a), su.ICaseString(b)
+    try:
+        if via == "xproc" and xproc_objects() and a in xproc_objects():
+            A = xproc_objects()[a]
+        elif via == "deepcopy":
+            A = copy.deepcopy(A)
+        elif via == "pickle":
+            import pickle
+            A = pickle.loads(pickle.dumps(A))
+    except Exception:  # noqa: BLE001
+        A = su.ICaseString(a)
     return [A == B, A < B, hash(A) == hash(B), (b in A), str(A), a.lower(), a.upper()]
 
 
-def mk_bag(rec):
+def mk_bag(rec, plain=False):
     cu = M("container_utils")
     sd = M("sim_services.sim_defs")
+    if plain:
+        ty = {"int": int, "bool": bool, "float": float}
+        return cu.BagValDict({k: [ty[t](v) for v, t in es] for k, es in rec})
     return cu.BagValDict({k: [sd.InstrState(i, sd.StallState(l)) for i, l in es] for k, es in rec})
 
 
-def run_bag(a, b):
-    A, B = mk_bag(a), mk_bag(b)
+def run_bag(a, b, plain=False):
+    A, B = mk_bag(a, plain), mk_bag(b, plain)
     return [A == B, len(A), repr(A)]
 
 
@@ -245,7 +282,10 @@ def run_parse(lines, form="list"):
         return [Sym("err"), [Sym(type(e).__name__), str(e)]]
 
 
-def run_isa(spec, caps, prog, form="list"):
+_KEEP = []
+
+
+def run_isa(spec, caps, prog, form="list", twin=None):
     pu = M("processor_utils")
     su = M("str_utils")
     pd = M("program_defs")
@@ -259,8 +299,21 @@ def run_isa(spec, caps, prog, form="list"):
         table = shaped(pairs, form)
     else:
         table = pairs
+    if twin is not None:
+        # history: the same table loaded just before against a case-variant twin of the ability set, in the form
+        # get_abilities returns (a frozenset); argument and result stay alive
+        try:
+            ab0 = frozenset(su.ICaseString(c) for c in twin)
+            _KEEP.append((ab0, pu.load_isa(list(pairs), ab0)))
+        except Exception as e:  # noqa: BLE001
+            _KEEP.append((ab0, e))
+        del _KEEP[:-40]
     try:
-        isa = pu.load_isa(table, shaped([su.ICaseString(c) for c in caps], "generator" if form == "generator" else "list"))
+        ab = [su.ICaseString(c) for c in caps]
+        ab = frozenset(ab) if form == "frozenset" else shaped(ab, "generator" if form == "generator" else "list")
+        if form == "frozenset":
+            _KEEP.append((ab, None))
+        isa = pu.load_isa(table, ab)
         r1 = [Sym("ok"), [[k, v] for k, v in isa.items()]]
     except Exception as e:  # noqa: BLE001
         cls, f, msg = exc_info(e)
